@@ -13,7 +13,7 @@ INFO = {
                "comparison in front of it; every sort is a stable algorithm except sort_unique (ties removed by "
                "dedup); the --sort-by bucket sorter is FIFO within a key, evicts the newest row of the worst key, "
                "mirrors ASC/DESC, and only the sorter adjacent to the limiter gets a capacity; sorters are chained "
-               "in forward option order. Ord for NumberValue, evaluated by partial evaluation on all pairs of a universe of representations in the interoperable range, orders by exact value; natural-order sorts are over JSON values (or Option of one) or String keys only, never tuples. A same-type comparison that consults several comparators (objects: size, sorted key lists, text) is a lexicographic cascade for every combination of comparator outcomes, so the relation stays transitive.",
+               "in forward option order. Ord for NumberValue, evaluated by partial evaluation on all pairs of a universe of representations in the interoperable range, orders by exact value; natural-order sorts are over JSON values (or Option of one) or String keys only, never tuples. A same-type comparison that consults several comparators (objects: size, sorted key lists, text) is a lexicographic cascade for every combination of comparator outcomes, so the relation stays transitive. Zero of either sign and every whole double in range becomes the integer (so -0.0 is not a key of its own).",
     "not_decided": "That NumberValue::cmp / total_cmp and the object comparison form a total order on run-time "
                    "values, and that outputs are permutations of inputs.",
     "trusted": ["sa/tables/json_order.toml", "std: slice::sort / sort_by are stable, sort_unstable* are not; "
@@ -50,6 +50,8 @@ def run(ctx, rep):
     lib = ctx.lib
     from rules import number_rules as _NR
     _NR.num_order(rep, ctx)
+    # numbers by value: zero of either sign and every whole double in range is the integer (shared with C10)
+    _NR.float_window(rep, lib)
     tab = common.table("json_order.toml")
     # ------------------------------------------------------------ RANK
     r = rep.rule("C07-RANK", "JsonValue::inner_index ranks the six JSON types in the documented order",
